@@ -373,6 +373,9 @@ func c16Arguments(c *Ctx, lists map[string]*c16List) {
 	ctxNwk := flow.Param(0, "deviceKeys", "NwkKey")
 	ctxApp := flow.Param(0, "deviceKeys", "AppKey")
 
+	// the HTTP half of the chain does not depend on the task lists
+	c16ChainHTTP(c, rChain, "joinTasks", "handleJoinRequestWrapper")
+	c16ChainHTTP(c, rChain, "rejoinTasks", "handleRejoinRequestWrapper")
 	for _, name := range []string{"joinTasks", "rejoinTasks"} {
 		L := lists[name]
 		if L == nil || !L.ok {
@@ -800,8 +803,18 @@ func c16Chain(c *Ctx, rule, list string, L *c16List) {
 			passThrough(c, ruleCtx, list+"/"+flow.ShortFunc(wrapper)+"/args", wrapper, wsite, ps)
 		}
 	}
+}
+
+// c16ChainHTTP: the HTTP-handler → wrapper half of the chain of custody, anchored on the wrappers R9 interprets
+// (handleJoinRequestWrapper / handleRejoinRequestWrapper), independent of how the task lists are organised.
+func c16ChainHTTP(c *Ctx, rule, list, wrapperName string) {
+	sp := c.Prog.SSAPkg(jsRel)
+	if sp == nil {
+		return
+	}
+	wrapper := sp.Func(wrapperName)
 	if wrapper == nil {
-		c.Run.Unknown(rule, key+"/caller", fpos(c, h), "a wrapper calls "+flow.ShortFunc(h), "none")
+		c.Run.Unknown(rule, list+"/wrapper", "", "function "+wrapperName+" exists", "missing")
 		return
 	}
 	// HTTP handler → wrapper
@@ -829,9 +842,18 @@ func c16Chain(c *Ctx, rule, list string, L *c16List) {
 	}
 	checkTerm(c, rule, hk+"/deviceKeys", p, "device keys (looked up by the request's DevEUI)", role["dk"], cfg("GetDeviceKeysByDevEUIFunc", req.Field("DevEUI"), 0))
 	checkTerm(c, rule, hk+"/asKEKLabel", p, "AS KEK label (looked up by the request's DevEUI)", role["asLabel"], cfg("GetASKEKLabelByDevEUIFunc", req.Field("DevEUI"), 0))
-	checkTerm(c, rule, hk+"/asKEK", p, "AS KEK (looked up under the AS label that is sent)", role["asKEK"], cfg("GetKEKByLabelFunc", role["asLabel"], 0))
+	// a KEK is compared with the lookup under the label that is sent; where the label itself comes out of a helper the
+	// rule does not read, the comparison has nothing to stand on
+	kek := func(k, what string, got, label *flow.Term) {
+		if h := unknownHelper(label, nil); h != "" || label.IsUnknown() {
+			c.Run.Unknown(rule, hk+"/"+k, p, what, "the label it must be looked up under goes through helper "+h+": "+short(label.String()))
+			return
+		}
+		checkTerm(c, rule, hk+"/"+k, p, what, got, cfg("GetKEKByLabelFunc", label, 0))
+	}
+	kek("asKEK", "AS KEK (looked up under the AS label that is sent)", role["asKEK"], role["asLabel"])
 	checkTerm(c, rule, hk+"/nsKEKLabel", p, "NS KEK label (the request's SenderID)", role["nsLabel"], req.Field("BasePayload", "SenderID"))
-	checkTerm(c, rule, hk+"/nsKEK", p, "NS KEK (looked up under the NS label that is sent)", role["nsKEK"], cfg("GetKEKByLabelFunc", role["nsLabel"], 0))
+	kek("nsKEK", "NS KEK (looked up under the NS label that is sent)", role["nsKEK"], role["nsLabel"])
 	if !(req.Op == "after" && req.Val == "encoding/json.Unmarshal") {
 		c.Run.Unknown(rule, hk+"/request", p, "the request payload decoded from the body", req.String())
 	}
